@@ -268,3 +268,7 @@ def run(chk):
     rule_data_writers(chk, "C18.7")
     F.rule_memory_copy(chk, chk.repo, "C18.8")
     X.rule_store_key_before_materialise(chk, "C18.10")
+    X.rule_to_list_raw(chk, "C18.11")
+    X.rule_metadata_exception_flags(chk, "C18.12")
+    from .c01 import rule_executables
+    rule_executables(chk, "C18.13")
